@@ -37,6 +37,40 @@ function main() -> void { int i = 0; while (i < 9000) { Box b = new Box(i); i = 
 ]
 
 
+def qubit_cycle_prog(rng):
+    """objects that own qubits (directly or through a base class), tied into garbage cycles; allocation bursts before or
+    after a fresh qubit is declared.  The emitted circuit, warnings, qubit numbering and flags must not depend on
+    when the collector runs."""
+    inherited = rng.random() < 0.7
+    k = rng.randint(2, 4)
+    burst1, burst2 = rng.choice([0, 20, 40]), rng.choice([0, 20, 40])
+    gate = rng.choice(["h", "x"])
+    reg = "class Register { public qubit q; public constructor() -> Register { } }\n"
+    if inherited:
+        cell = "class Cell extends Register { public Cell next; public constructor() -> Cell { super(); } }\n"
+    else:
+        cell = "class Cell { public qubit q; public Cell next; public constructor() -> Cell { } }\n"
+    junk = "class Junk { public int n; public constructor(int n) -> Junk { this.n = n; } }\n" \
+           "function churn(int n) -> int { int t = 0; for (int i = 0; i < n; i = i + 1) { Junk j = new Junk(i); t = t + j.n; } return t; }\n"
+    body = []
+    names = ["c%d" % i for i in range(k)]
+    for n in names:
+        body.append("Cell %s = new Cell();" % n)
+    for i, n in enumerate(names):
+        body.append("%s.next = %s;" % (n, names[(i + 1) % k]))
+        if rng.random() < 0.5:
+            body.append("%s(%s.q);" % (gate, n))
+    for n in names:
+        body.append("%s = null;" % n)
+    body.append("echo(churn(%d));" % burst1)
+    body.append("qubit fresh;")
+    body.append("h(fresh);")
+    body.append("echo(churn(%d));" % burst2)
+    if rng.random() < 0.5:
+        body.append("bit b = measure fresh; echo(b);")
+    return reg + cell + junk + "function main() -> void {\n  " + "\n  ".join(body) + "\n}\n"
+
+
 def tsan_runs(chk):
     bdir = vlib.repo_build("tsan")
     exe = os.path.join(bdir, "bin", "bloch")
@@ -105,9 +139,31 @@ def run(chk):
         else:
             if base.get("status") == "ok" and "~" in (base.get("stdout") or ""):
                 nontriv.add(src)
+    # objects owning qubits in garbage cycles: circuit, warnings, numbering and flags under every schedule
+    qsrc = [qubit_cycle_prog(rng) for _ in range(30 if quick else 400)]
+    draws = "draws=" + ",".join("0.%d" % ((7 * i) % 10) for i in range(12))
+    qouts = {s: lc.run_impl(qsrc, env="BLOCH_VERIF_GC=%s" % s, opts=draws) for s in scheds}
+    qouts["default"] = lc.run_impl(qsrc, opts=draws)
+    keys = ("status", "cat", "stdout", "stderr", "qasm", "nq", "sim_meas", "ev_meas", "free", "last", "draws")
+    nq = 0
+    for i, src in enumerate(qsrc):
+        base = qouts["none"][i]
+        if base.get("status") in ("signal", "exit", "exception", "unparsable"):
+            chk.report("c11-quantum-crash", {"source": src, "implementation": base}, "qubit-owning cycle program crashed")
+            continue
+        for sname, res in qouts.items():
+            r = res[i]
+            diff = [k for k in keys if r.get(k) != base.get(k)]
+            if diff:
+                nq += 1
+                chk.report("c11-quantum-schedule", {"source": src, "schedule": sname, "differs_in": diff,
+                                                    "with_schedule": {k: r.get(k) for k in diff}, "without_collection": {k: base.get(k) for k in diff},
+                                                    "how": "BLOCH_VERIF_GC=%s drv_prog 'run p.bloch %s' vs BLOCH_VERIF_GC=none" % (sname, draws)},
+                           "circuit / warnings / qubit bookkeeping depend on the collection schedule (%s): %s" % (sname, ",".join(diff)))
+                break
     ntsan = tsan_runs(chk) if True else 0
     chk.cov.update({"programs": len(progs), "schedules": list(outs), "executions": len(progs) * len(outs), "verdicts_vs_reference": counts,
-                    "schedule_disagreements": ndiff, "distinct_nontrivial_programs": len(nontriv), "tsan_runs": ntsan,
+                    "schedule_disagreements": ndiff, "qubit_cycle_programs": len(qsrc), "qubit_cycle_schedule_disagreements": nq, "distinct_nontrivial_programs": len(nontriv), "tsan_runs": ntsan,
                     "disagreements_checked": ndiff + sum(v for k, v in counts.items() if k not in ("agree", "rejected") and not k.startswith("skip")),
                     "rule": "programs whose object graphs are held by variables, fields, statics, pending call arguments, temporaries used as receivers and in-flight "
                             "return values, with allocation bursts (0..40 objects) at exactly those points, garbage cycles, cascading destructors; plus random class "
